@@ -10,6 +10,7 @@ import (
 	"context"
 	"errors"
 	"fmt"
+	uuid "github.com/satori/go.uuid"
 	"runtime"
 	"strings"
 	"sync"
@@ -105,6 +106,22 @@ const (
 )
 
 // Durable is what a replica has made durable so far (as acknowledged by the store).
+// AttestsOnlyDurable checks a message leaving a replica against what the replica's log store has made durable:
+// a granted vote needs the term and vote, an accepted append needs the term and the entries. "" = fine.
+func AttestsOnlyDurable(d Durable, m raftpb.Message) string {
+	switch m.Type {
+	case raftpb.MsgVoteResp:
+		if !m.Reject && (d.Term < m.Term || (d.Term == m.Term && d.Vote != m.To)) {
+			return fmt.Sprintf("grants its vote to %d in term %d but its durable hard state is term %d vote %d", m.To, m.Term, d.Term, d.Vote)
+		}
+	case raftpb.MsgAppResp:
+		if !m.Reject && (d.Term < m.Term || d.LastIndex < m.Index) {
+			return fmt.Sprintf("acknowledges entries up to %d in term %d but its durable log ends at %d (durable term %d)", m.Index, m.Term, d.LastIndex, d.Term)
+		}
+	}
+	return ""
+}
+
 type Durable struct {
 	Term, Vote, Commit uint64
 	LastIndex          uint64
@@ -115,16 +132,16 @@ type Durable struct {
 // MonWAL wraps a wal.WAL.
 type MonWAL struct {
 	wal.WAL
-	mu       sync.Mutex
-	D        Durable
-	DataEntries int   // normal entries with a payload handed to Save (raft's own empty / conf-change entries excluded)
-	Writes   int      // completed + attempted durable writes
-	Kinds    []string // kind of each write
-	CrashAt  int      // 0 = never; k = the k-th durable write
-	After    bool     // perform write k, then die (otherwise die before performing it)
-	Crashed  bool
-	OnCrash  func() // called once when the crash fires (under no lock)
-	Violations []string
+	mu          sync.Mutex
+	D           Durable
+	DataEntries int      // normal entries with a payload handed to Save (raft's own empty / conf-change entries excluded)
+	Writes      int      // completed + attempted durable writes
+	Kinds       []string // kind of each write
+	CrashAt     int      // 0 = never; k = the k-th durable write
+	After       bool     // perform write k, then die (otherwise die before performing it)
+	Crashed     bool
+	OnCrash     func() // called once when the crash fires (under no lock)
+	Violations  []string
 }
 
 func NewMonWAL(w wal.WAL) *MonWAL {
@@ -345,8 +362,10 @@ type Net struct {
 	links   map[[2]uint64]*Link
 	// OnSend is called for every message before the fault decision (sender's loop goroutine).
 	OnSend func(from uint64, m raftpb.Message)
-	Stats  map[string]int
-	wg     sync.WaitGroup
+	// OnSendGroup: the same, with the raft group the message belongs to (several groups per node).
+	OnSendGroup func(from uint64, group uuid.UUID, m raftpb.Message)
+	Stats       map[string]int
+	wg          sync.WaitGroup
 }
 
 func NewNet() *Net {
@@ -404,6 +423,11 @@ func (s *shim) Receive(ctx context.Context, in *pb.RaftMessage, _ ...grpc.CallOp
 	n := s.n
 	if n.OnSend != nil {
 		n.OnSend(s.from, m)
+	}
+	if n.OnSendGroup != nil {
+		if gid, err := uuid.FromBytes(in.GetGroupId()); err == nil {
+			n.OnSendGroup(s.from, gid, m)
+		}
 	}
 	n.mu.Lock()
 	target := n.targets[s.to]
